@@ -1002,6 +1002,12 @@ def eval_c15(case, ctx):
             if kind == "l" and val == [] and got:
                 sig = "empty_list_replaced_by_default"
             res.violations.append(V("C15", sig, "after the last load registered %s (%s) is %r, expected %r (file value or registered default)" % (where, kind, got, val)))
+    # (1b) everything the last file says is there, with the value it says - registered or not
+    diffs = []
+    cmp_tree(tree, final, "", diffs, only_present=True)
+    diffs = [d_ for d_ in diffs if "appeared although" not in d_]      # leftovers are judged by (2), defaults by (1)
+    if diffs:
+        res.violations.append(V("C15", "last_file_not_in_force", "after the last load the tree does not say what the last file says: %s" % diffs[:2]))
     # (2) unregistered leftovers are gone / exactly those of the last file
     got_un = present_unregistered(final, None)
     want_un = model_unregistered(tree, regs)
